@@ -528,5 +528,75 @@ def main():
     return 1 if bad else 0
 
 
+# --- match statements ----------------------------------------------------------------------------------------------------------
+case("match: constants, or-pattern, wildcard", """
+def f(self):
+    match self.kind:
+        case K.A:
+            u = 1
+        case K.B | K.C:
+            u = 2
+        case _:
+            raise ValueError(self.kind)
+    return u
+""", must=["if self.kind == K.A", "elif self.kind in [K.B, K.C]", "else:"], must_not=["match "])
+case("match: string constants without default", """
+def f(d, out):
+    match d["t"]:
+        case "W":
+            out.append(1)
+        case "I":
+            out.append(2)
+    return out
+""", must=["if d['t'] == 'W'", "elif d['t'] == 'I'"], must_not=["match "])
+case("match: NOT with a guard", """
+def f(x, y):
+    match x:
+        case 1 if y:
+            return 1
+        case _:
+            return 2
+""", must=["match x"])
+case("match: NOT with a capture pattern", """
+def f(x):
+    match x:
+        case 1:
+            return 1
+        case other:
+            return other
+""", must=["match x"])
+case("match: NOT with a class / sequence pattern", """
+def f(x):
+    match x:
+        case [a, b]:
+            return a
+        case _:
+            return 0
+""", must=["match x"])
+case("match: NOT with an impure subject", """
+def f(it):
+    match next(it):
+        case 1:
+            return 1
+        case _:
+            return 0
+""", must=["match next(it)"])
+# --- helpers with positional-only parameters and tuple results --------------------------------------------------------------------
+case("helper: positional-only parameters", """
+def _h(a, b, /):
+    return a - b
+def f(x, y):
+    return _h(x, y) * 2
+""", must=["(x - y) * 2"], must_not=["_h("])
+case("helper: tuple result unpacked", """
+def _h(s):
+    p = s.split("_")
+    q = p[0] + p[1]
+    return q, p
+def f(s):
+    k, parts = _h(s)
+    return k + parts[0]
+""", must_not=["_h("], must=["s.split('_')"])
+
 if __name__ == "__main__":
     sys.exit(main())
